@@ -38,6 +38,7 @@ package ez
 //@   safety C16
 //@   flag record ezMain
 //@   requires ctx != nil && cfg != nil && df != nil
+//@   requires api_precondition_config_is_a_struct: kind(elem(typeOfDyn(tid("*T")))) == Struct && elem(typeOfDyn(tid("*T"))) != nil
 //@   modifies *
 //@   at call dp.Config:
 //@     assert C18_source_order_blank_env_flags: len(arg3) == 3 && isType(cell(selem(arg3, 0), "Iface"), "*sourcewrap.Blank")
@@ -78,6 +79,7 @@ package ez
 //@   safety C16
 //@   flag record ezFileEnvFlag
 //@   requires ctx != nil && cfg != nil && df != nil
+//@   requires api_precondition_config_is_a_struct: kind(elem(typeOfDyn(tid("*T")))) == Struct && elem(typeOfDyn(tid("*T"))) != nil
 //@   modifies *
 //@   ensures C18_wrapper_passes_through: rec_ezMain_cnt == old(rec_ezMain_cnt) + 1 && rec_ezMain_arg0[old(rec_ezMain_cnt)] == ctx
 //@        && rec_ezMain_arg1[old(rec_ezMain_cnt)] == cfg && rec_ezMain_arg3[old(rec_ezMain_cnt)] == params
@@ -87,6 +89,7 @@ package ez
 //@   props C18
 //@   safety C16
 //@   requires ctx != nil && cfg != nil
+//@   requires api_precondition_config_is_a_struct: kind(elem(typeOfDyn(tid("*T")))) == Struct && elem(typeOfDyn(tid("*T"))) != nil
 //@   modifies *
 //@   ensures C18_wrapper_passes_through: rec_ezMain_cnt == old(rec_ezMain_cnt) + 1 && rec_ezMain_arg0[old(rec_ezMain_cnt)] == ctx
 //@        && rec_ezMain_arg1[old(rec_ezMain_cnt)] == cfg && rec_ezMain_arg3[old(rec_ezMain_cnt)] == params
@@ -96,6 +99,7 @@ package ez
 //@   props C18
 //@   safety C16
 //@   requires ctx != nil && cfg != nil
+//@   requires api_precondition_config_is_a_struct: kind(elem(typeOfDyn(tid("*T")))) == Struct && elem(typeOfDyn(tid("*T"))) != nil
 //@   modifies *
 //@   ensures C18_wrapper_passes_through: rec_ezFileEnvFlag_cnt == old(rec_ezFileEnvFlag_cnt) + 1 && rec_ezFileEnvFlag_arg0[old(rec_ezFileEnvFlag_cnt)] == ctx
 //@        && rec_ezFileEnvFlag_arg1[old(rec_ezFileEnvFlag_cnt)] == cfg && rec_ezFileEnvFlag_arg3[old(rec_ezFileEnvFlag_cnt)] == params
@@ -105,6 +109,7 @@ package ez
 //@   props C18
 //@   safety C16
 //@   requires ctx != nil && cfg != nil
+//@   requires api_precondition_config_is_a_struct: kind(elem(typeOfDyn(tid("*T")))) == Struct && elem(typeOfDyn(tid("*T"))) != nil
 //@   modifies *
 //@   ensures C18_wrapper_passes_through: rec_ezFileEnvFlag_cnt == old(rec_ezFileEnvFlag_cnt) + 1 && rec_ezFileEnvFlag_arg0[old(rec_ezFileEnvFlag_cnt)] == ctx
 //@        && rec_ezFileEnvFlag_arg1[old(rec_ezFileEnvFlag_cnt)] == cfg && rec_ezFileEnvFlag_arg3[old(rec_ezFileEnvFlag_cnt)] == params
@@ -114,6 +119,7 @@ package ez
 //@   props C18
 //@   safety C16
 //@   requires ctx != nil && cfg != nil
+//@   requires api_precondition_config_is_a_struct: kind(elem(typeOfDyn(tid("*T")))) == Struct && elem(typeOfDyn(tid("*T"))) != nil
 //@   modifies *
 //@   ensures C18_wrapper_passes_through: rec_ezFileEnvFlag_cnt == old(rec_ezFileEnvFlag_cnt) + 1 && rec_ezFileEnvFlag_arg0[old(rec_ezFileEnvFlag_cnt)] == ctx
 //@        && rec_ezFileEnvFlag_arg1[old(rec_ezFileEnvFlag_cnt)] == cfg && rec_ezFileEnvFlag_arg3[old(rec_ezFileEnvFlag_cnt)] == params
@@ -123,6 +129,7 @@ package ez
 //@   props C18
 //@   safety C16
 //@   requires ctx != nil && cfg != nil
+//@   requires api_precondition_config_is_a_struct: kind(elem(typeOfDyn(tid("*T")))) == Struct && elem(typeOfDyn(tid("*T"))) != nil
 //@   modifies *
 //@   ensures C18_wrapper_passes_through: rec_ezFileEnvFlag_cnt == old(rec_ezFileEnvFlag_cnt) + 1 && rec_ezFileEnvFlag_arg0[old(rec_ezFileEnvFlag_cnt)] == ctx
 //@        && rec_ezFileEnvFlag_arg1[old(rec_ezFileEnvFlag_cnt)] == cfg && rec_ezFileEnvFlag_arg3[old(rec_ezFileEnvFlag_cnt)] == params
